@@ -52,7 +52,11 @@ func genEnum(r *vh.Rand) EnumEnv {
 			e.UnspecDesc = "nothing"
 		}
 		if r.Chance(12) {
-			e.Unspecified = "X_UNSPECIFIED" // another name ending in UNSPECIFIED: the reader takes its head for the prefix
+			// another first option ending in UNSPECIFIED: since /repo a65e1f2 an ordinary
+			// option (number 1), value 0 stays the implicit <prefix>UNSPECIFIED
+			e.Options = append([]string{"X_UNSPECIFIED"}, e.Options...)
+			e.OptDescs = append([]string{e.UnspecDesc}, e.OptDescs...)
+			e.Unspecified, e.UnspecDesc = "", ""
 		}
 	}
 	if r.Chance(40) {
@@ -343,6 +347,21 @@ func genFTy(r *vh.Rand, scope string, env EnumEnv) (FTy, string) {
 			}
 		}
 		t.List = genLPay(r, false, false)
+		if t.List != nil && len(t.List.Filters) > 0 {
+			// default filters of an enum field name options of the enum (short or prefixed);
+			// anything else is a compile error since /repo fb0e252
+			o := strings.TrimPrefix(vh.Pick(r, env.Options), env.Prefix)
+			if r.Chance(30) {
+				o = env.Prefix + o
+			}
+			t.List.Filters = []string{o}
+			if r.Chance(15) {
+				t.List.Filters = []string{o, "NOPE"}
+				if class == "" {
+					class = "refused-enum-default-filter"
+				}
+			}
+		}
 		return t, class
 	case 6:
 		t := FTy{Kind: TKey, KF: KFmt(r.Intn(5))}
